@@ -12,6 +12,7 @@ package certverify
 import (
 	"errors"
 	"fmt"
+	"math/big"
 	"net/netip"
 	"strings"
 	"testing"
@@ -237,6 +238,8 @@ type genState struct {
 	nops int
 	seq  int
 	full map[int]bool // registers holding an accepted certificate (generator-side mirror)
+
+	shortS int // real short-s twins issued so far (cl.GrindShortS)
 }
 
 func (g *genState) op(format string, a ...any) {
@@ -432,6 +435,15 @@ func (g *genState) realLeaf(ca *caInfo) {
 	}
 	if raw == nil {
 		raw = cl.Craft(f, key, nil) // P-256: high or low S as it comes
+	}
+	if key == ca.key && key.Curve == cert.Curve_P256 && g.shortS < 2 {
+		// a real signature whose low form has a short s (two or more leading zero bytes), presented in the HIGH form:
+		// the alternate fingerprint then hashes a signature whose s needs the leading zeros stripped
+		g.shortS++
+		if f2, rr, s, ok := cl.GrindShortS(r, key, f, 600000); ok {
+			f = f2
+			raw = cl.Craft(f, nil, cl.DerSig(rr, new(big.Int).Sub(cl.P256N(), s)))
+		}
 	}
 	c, err := cl.Decode(f.Version, raw)
 	if err != nil {
